@@ -1,6 +1,8 @@
 package props
 
 import (
+	"strings"
+	"unicode/utf8"
 	"fmt"
 
 	"github.com/jotaen/klog/klog/parser"
@@ -138,6 +140,29 @@ func c01Valid(e *core.Env, r *core.Rand, doc *gen.Out) {
 	check("serial", parser.NewSerialParser())
 	n := r.Range(2, 9)
 	check(fmt.Sprintf("parallel(%d)", n), parser.NewParallelParser(n))
+	if core.Hash64("c01-stdin", doc.Text)%20 == 0 && doc.Text != "" && !strings.Contains(doc.Text, "\x00") { // (an empty pipe is no input at all)
+		// the whole program: the same text piped into the real binary must be accepted and denote the same data
+		if recs, nerr, _, crash, ok := stdinJSON(e, doc.Text); ok {
+			w := map[string]any{"text": doc.Text, "how": "printf TEXT | klog json"}
+			if crash != "" {
+				e.Violation("stdin-crash", "text on the standard input of the real binary: "+crash, w)
+				return
+			}
+			if nerr > 0 {
+				e.Violation("conforming-text-rejected", fmt.Sprintf("real binary, text on standard input: a conforming text is rejected with %d errors", nerr), w)
+				return
+			}
+			want := make([]expectedRec, len(doc.Doc.Recs))
+			for i := range doc.Doc.Recs {
+				want[i] = expectedRec{Rec: &doc.Doc.Recs[i], ClosedEnd: -1}
+			}
+			if diff := compareJSONRecords(recs, want, true, utf8.ValidString(doc.Text)); diff != "" {
+				e.Violation("wrong-data-extracted", "real binary, text on standard input: "+diff, w)
+				return
+			}
+			e.Count("conforming_documents_also_piped_into_the_binary", 1)
+		}
+	}
 	e.Count("conforming_documents", 1)
 	if len(doc.Doc.Recs) >= 2 && (doc.Feat["shifted"] || doc.Feat["h24_00"] || doc.Feat["h12"]) && (doc.Feat["crlf"] || doc.Feat["ws_only_lines"] || doc.Feat["no_final_newline"] || doc.Feat["mixed_eol"]) {
 		e.Nontrivial(core.Hash64("doc", doc.Text))
@@ -173,6 +198,20 @@ func c01Mutant(e *core.Env, r *core.Rand, text, rules string, first gen.Mutant, 
 	check("serial", parser.NewSerialParser())
 	n := r.Range(2, 9)
 	check(fmt.Sprintf("parallel(%d)", n), parser.NewParallelParser(n))
+	if core.Hash64("c01-stdin", text)%20 == 0 && !strings.Contains(text, "\x00") {
+		if _, nerr, rnull, crash, ok := stdinJSON(e, text); ok {
+			w := map[string]any{"text": text, "rule": rec.Rule, "line": rec.BadLine + 1, "how": "printf TEXT | klog json"}
+			if crash != "" {
+				e.Violation("stdin-crash", "text on the standard input of the real binary: "+crash, w)
+				return
+			}
+			if nerr == 0 || !rnull {
+				e.Violation("nonconforming-text-accepted: "+rec.Rule, fmt.Sprintf("real binary, text on standard input: %d errors, records null=%v, for a text that breaks a MUST rule at line %d (%s; operator %s)", nerr, rnull, rec.BadLine+1, rec.Rule, rules), w)
+				return
+			}
+			e.Count("mutants_also_piped_into_the_binary", 1)
+		}
+	}
 	e.Count("mutants", 1)
 	e.Count("mutant_rule_"+rec.Rule, 1)
 	layoutClass := ""
